@@ -246,7 +246,7 @@ def main(run):
         for i, s in enumerate(o["steps"]):
             if s.get("panic"):
                 mism.append([o["id"], i, 9])
-    CODES[9] = "builder operation panicked"
+    CODES[9] = "builder operation panicked, or changed the argument list it was handed"
     shard = 400
     nmoves = 0
     for i in range(0, len(cases), shard):
